@@ -172,6 +172,9 @@ CASE_TIMEOUT_S = int(os.environ.get('VERIF_CASE_TIMEOUT', '180'))
 def _guarded(run_case, case, stats):
     """Run one case under a generous wall-clock watchdog. A case that does not finish is
     *inconclusive* (wall clock is never a verdict): it is skipped and counted."""
+    if os.environ.get('VERIF_DEBUG_CASELOG'):
+        with open('%s.%d' % (os.environ['VERIF_DEBUG_CASELOG'], os.getpid()), 'a') as f:
+            f.write(json.dumps(case) + '\n')
     import signal
 
     def onalarm(signum, frame):
